@@ -40,23 +40,50 @@ func queryOfBody(n int, seed byte) []byte {
 	return pgproto.Msg('Q', append(filler(n-1, seed), 0))
 }
 
-func c18Letters() []c18Letter {
+// c18Letters: the later traffic for a given message limit. Sizes sit around the 4 KiB allocation
+// granule and around the limit; with a limit below the granule an oversized message can be
+// discarded into the spare capacity of the live chunk, which is its own hazard.
+func c18Letters(limit int) []c18Letter {
 	var ls []c18Letter
-	for i, n := range []int{0, 1, 100, 4090, 4095, 4096, 4097, 8191, 8192} {
+	sizes := []int{0, 1, 100, 4090, 4095, 4096, 4097, 8191, 8192}
+	over := []int{8193, 20000}
+	copyA, copyB := []int{4096, 8192, 1}, []int{100, 9000, 4000}
+	bindA, bindB := []int{4096}, []int{8000, 100}
+	if limit == 1024 {
+		sizes = []int{0, 1, 100, 1000, 1023, 1024}
+		over = []int{1025, 1500, 3000, 6000}
+		copyA, copyB = []int{1024, 512, 1}, []int{100, 1500, 1000}
+		bindA, bindB = []int{900}, []int{500, 100}
+	}
+	for i, n := range sizes {
 		name := fmt.Sprintf("Query(body=%d)", n)
 		if n == 0 {
 			name = "Sync(body=0)"
 		}
 		ls = append(ls, c18Letter{name, queryOfBody(n, byte(i))})
 	}
-	for i, n := range []int{8193, 20000} {
+	for i, n := range over {
 		ls = append(ls, c18Letter{fmt.Sprintf("Oversized(body=%d)", n), pgproto.Msg('Q', filler(n, byte(40+i)))})
 	}
+	burst := func(sz []int, seed byte) []byte {
+		b := pgproto.Query("cp")
+		for i, n := range sz {
+			b = append(b, pgproto.CopyData(filler(n, seed+byte(i)))...)
+		}
+		return append(b, pgproto.CopyDone()...)
+	}
+	batch := func(sz []int, seed byte) []byte {
+		var vals [][]byte
+		for i, n := range sz {
+			vals = append(vals, filler(n, seed+byte(i)))
+		}
+		return pgproto.Cat(pgproto.Parse("t", "later"), pgproto.Bind("t", "t", nil, vals, nil), pgproto.Execute("t", 0), pgproto.Sync())
+	}
 	ls = append(ls,
-		c18Letter{"COPY(4096,8192,1)", pgproto.Cat(pgproto.Query("cp"), pgproto.CopyData(filler(4096, 50)), pgproto.CopyData(filler(8192, 51)), pgproto.CopyData(filler(1, 52)), pgproto.CopyDone())},
-		c18Letter{"COPY(100,oversized 9000,4000)", pgproto.Cat(pgproto.Query("cp"), pgproto.CopyData(filler(100, 53)), pgproto.CopyData(filler(9000, 54)), pgproto.CopyData(filler(4000, 55)), pgproto.CopyDone())},
-		c18Letter{"Parse+Bind(4096)+Execute+Sync", pgproto.Cat(pgproto.Parse("t", "later"), pgproto.Bind("t", "t", nil, [][]byte{filler(4096, 56)}, nil), pgproto.Execute("t", 0), pgproto.Sync())},
-		c18Letter{"Parse+Bind(8000,100)+Execute+Sync", pgproto.Cat(pgproto.Parse("t", "later"), pgproto.Bind("t", "t", nil, [][]byte{filler(8000, 57), filler(100, 58)}, nil), pgproto.Execute("t", 0), pgproto.Sync())},
+		c18Letter{fmt.Sprintf("COPY%v", copyA), burst(copyA, 50)},
+		c18Letter{fmt.Sprintf("COPY%v", copyB), burst(copyB, 53)},
+		c18Letter{fmt.Sprintf("Parse+Bind%v+Execute+Sync", bindA), batch(bindA, 56)},
+		c18Letter{fmt.Sprintf("Parse+Bind%v+Execute+Sync", bindB), batch(bindB, 57)},
 	)
 	return ls
 }
@@ -126,7 +153,7 @@ func clip(s string) string {
 	return s
 }
 
-func c18Run(hist []c18Letter) explore.Result {
+func c18Run(limit int, hist []c18Letter) explore.Result {
 	var res explore.Result
 	st := &c18State{}
 	var reexec []string
@@ -148,18 +175,21 @@ func c18Run(hist []c18Letter) explore.Result {
 				}
 			}, wire.WithColumns(wire.Columns{{Name: "a", Oid: 25}}))), nil
 		}
-		keep := strings.HasPrefix(q, "first-") // the later traffic is not retained, only the first phase
-		if keep {
-			st.keepString("query text "+clip(q), q)
+		// everything handed to callbacks is retained: the first phase and the later traffic alike
+		keep := true
+		st.keepString("query text "+clip(q), q)
+		if strings.HasPrefix(q, "first-") {
 			st.keepMap("client parameters (parser)", wire.ClientParameters(ctx))
 		}
 		return wire.Prepared(wire.NewStatement(func(ctx context.Context, w wire.DataWriter, params []wire.Parameter) error {
 			if keep && q == "first-parse" {
 				reexec = reexec[:0]
-				for i, p := range params {
-					st.keepBytes(fmt.Sprintf("bind parameter %d", i), p.Value())
+				for _, p := range params {
 					reexec = append(reexec, string(p.Value()))
 				}
+			}
+			for i, p := range params {
+				st.keepBytes(fmt.Sprintf("bind parameter %d of %s", i, clip(q)), p.Value())
 			}
 			return w.Complete("OK")
 		})), nil
@@ -171,7 +201,7 @@ func c18Run(hist []c18Letter) explore.Result {
 		st.keepMap("client parameters (validator)", wire.ClientParameters(ctx))
 		return ctx, true, nil
 	}
-	one, err := harness.StartOne(parse, wire.MessageBufferSize(c18Limit), wire.SessionAuthStrategy(wire.ClearTextPassword(validate)))
+	one, err := harness.StartOne(parse, wire.MessageBufferSize(limit), wire.SessionAuthStrategy(wire.ClearTextPassword(validate)))
 	if err != nil {
 		res.Engine = err.Error()
 		return res
@@ -223,8 +253,8 @@ func c18Run(hist []c18Letter) explore.Result {
 		res.Fail("retained-data-overwritten", "at the end: "+d)
 	}
 	res.Outcome = "retained"
-	res.Key = strings.Join(c18Names(hist), ",")
-	state := "first-phase"
+	res.Key = fmt.Sprint(limit, c18Names(hist))
+	state := fmt.Sprintf("first-phase/L=%d", limit)
 	for _, l := range hist {
 		cls := strings.SplitN(l.Name, "(", 2)[0]
 		res.Trans = append(res.Trans, state+"|"+l.Name+"|after-"+cls)
@@ -246,10 +276,10 @@ func init() {
 		ID:        "C18",
 		Level:     "model_checking",
 		Technique: "exhaustive enumeration of later-traffic histories over message sizes around the 4 KiB allocation granule and the message limit, on a real server whose callbacks retain (without copying) everything they were handed next to a private clone; invariant checked after every message",
-		Rule:      "first phase retains startup parameters (validator + parser), database / user / password, a Query text, a Parse text and two Bind values; then every history of length <= d over 15 letters: Query bodies of 0,1,100,4090,4095,4096,4097,8191,8192 bytes, oversized 8193 / 20000, two COPY bursts (incl. an oversized CopyData), two Bind batches with 4096 / 8000+100 byte values; limit 8192",
+		Rule:      "first phase retains startup parameters (validator + parser), database / user / password, a Query text, a Parse text and two Bind values; then every history of length <= d over 15 (limit 8192) / 14 (limit 1024, below the 4 KiB allocation granule) letters: Query bodies around the granule and the limit, oversized-and-skipped messages of several sizes, two COPY bursts (incl. an oversized CopyData), two Bind batches",
 		Assumptions: []string{"CopyData payload views are not retained: the statement lists query texts, parameter values, client parameters and passwords"},
 		Enumerate:   c18Enumerate,
-		Bounds:      func(tier string) map[string]any { return map[string]any{"history_depth": c18Depth(tier), "letters": 15, "limit": c18Limit} },
+		Bounds:      func(tier string) map[string]any { return map[string]any{"history_depth": c18Depth(tier), "letters": []int{15, 14}, "limits": []int{c18Limit, 1024}} },
 		RequiredOutcomes: []string{"retained"},
 	})
 }
@@ -262,14 +292,17 @@ func c18Depth(tier string) int {
 }
 
 func c18Enumerate(tier string, emit explore.Emit) {
-	letters := c18Letters()
-	forShapes(len(letters), c18Depth(tier), func(sh []int) {
-		hist := make([]c18Letter, len(sh))
-		for i, s := range sh {
-			hist[i] = letters[s]
-		}
-		emit(explore.Case{Family: "retention", Size: len(hist),
-			Desc: func() any { return map[string]any{"later_traffic": c18Names(hist)} },
-			Run:  func() explore.Result { return c18Run(hist) }})
-	})
+	for _, limit := range []int{c18Limit, 1024} {
+		limit := limit
+		letters := c18Letters(limit)
+		forShapes(len(letters), c18Depth(tier), func(sh []int) {
+			hist := make([]c18Letter, len(sh))
+			for i, s := range sh {
+				hist[i] = letters[s]
+			}
+			emit(explore.Case{Family: fmt.Sprintf("retention/limit=%d", limit), Size: len(hist),
+				Desc: func() any { return map[string]any{"message_limit": limit, "later_traffic": c18Names(hist)} },
+				Run:  func() explore.Result { return c18Run(limit, hist) }})
+		})
+	}
 }
